@@ -2357,11 +2357,11 @@ impl<'i, R: XmlRead<'i>, E: EntityResolver> XmlReader<'i, R, E> {
     #[inline]
     fn read_to_end(&mut self, name: QName) -> Result<(), DeError> {
         match self.lookahead {
-            // We pre-read event with the same name that is required to be skipped.
-            // First call of `read_to_end` will end out pre-read event, the second
+            // We pre-read start event of the nested element. First call of `read_to_end`
+            // will end out pre-read event (closing its namespace scope), the second
             // will consume other events
-            Ok(PayloadEvent::Start(ref e)) if e.name() == name => {
-                let result1 = self.reader.read_to_end(name);
+            Ok(PayloadEvent::Start(ref e)) => {
+                let result1 = self.reader.read_to_end(e.name());
                 let result2 = self.reader.read_to_end(name);
 
                 // In case of error `next_impl` returns `Eof`
